@@ -9,14 +9,16 @@ import sys
 
 ROOT = os.path.dirname(os.path.dirname(os.path.abspath(__file__)))
 rows = []
-for d in sorted(glob.glob('/tmp/mut-C*/[0-9]*')) + sorted(glob.glob('/tmp/mut2-C*/[0-9]*')) + sorted(glob.glob('/tmp/mut3-C*/[0-9]*')) + sorted(glob.glob('/tmp/mut5-C*/[0-9]*')) + sorted(glob.glob('/tmp/mut6-T*/[0-9]*')):
+for d in sorted(glob.glob('/tmp/mut-C*/[0-9]*')) + sorted(glob.glob('/tmp/mut2-C*/[0-9]*')) + sorted(glob.glob('/tmp/mut3-C*/[0-9]*')) + sorted(glob.glob('/tmp/mut5-C*/[0-9]*')) + sorted(glob.glob('/tmp/mut6-T*/[0-9]*')) + sorted(glob.glob('/tmp/mut7-C*/[0-9]*')):
     ev = os.path.join(d, 'eval.json')
     if not os.path.exists(ev):
         continue
     e = json.load(open(ev))
     m = json.load(open(os.path.join(d, 'meta.json')))
     ok = e.get('patch_applies') and e.get('suite_passes_with_patch') and e.get('demo_fails_with_patch') and e.get('demo_passes_without_patch')
-    if '/mut6-' in d:
+    if '/mut7-' in d:
+        name = '%s-r7-%s-%s' % (m['property'], d.split('/mut7-')[1].split('/')[0], os.path.basename(d))
+    elif '/mut6-' in d:
         name = '%s-r6-%s-%s' % (m['property'], d.split('/mut6-')[1].split('/')[0], os.path.basename(d))
     else:
       name = '%s-%s%s' % (m['property'], ('r2-' if '/mut2-' in d else ('r3-' if '/mut3-' in d else ('r5-' if '/mut5-' in d else ''))), os.path.basename(d))
@@ -41,7 +43,7 @@ for d in sorted(glob.glob('/tmp/mut-C*/[0-9]*')) + sorted(glob.glob('/tmp/mut2-C
         'needs': m.get('needs'),
         'demo_cmd': e.get('demo_cmd'),
         'origin': ('written by a fresh sub-agent that saw only the property text and a scratch worktree of /repo'
-                   + ('; round 2: the agent was additionally told, in general terms, which kinds of inputs and configurations a monitor would already cover, and asked for changes that need something more specific' if '/mut2-' in d else ('; round 3: as round 2, and asked for changes made of two cooperating edits or depending on a rare internal intermediate value' if '/mut3-' in d else ('; round 5: told which digit counts, operand families and build modes the harness covers, and asked for changes failing on fewer than one in 10^5 structured inputs or only on an unusual configuration / entry point / build mode' if '/mut5-' in d else ('; round 6: the agent was given the text of all twenty properties, a theme (build-mode differences, narrowed intermediates, fast paths, sign handling, feature-gated code, text conversion, conversions, free choice), and a description of the operand families and configurations a harness covers (including every digit count up to 32)' if '/mut6-' in d else ''))))),
+                   + ('; round 2: the agent was additionally told, in general terms, which kinds of inputs and configurations a monitor would already cover, and asked for changes that need something more specific' if '/mut2-' in d else ('; round 3: as round 2, and asked for changes made of two cooperating edits or depending on a rare internal intermediate value' if '/mut3-' in d else ('; round 5: told which digit counts, operand families and build modes the harness covers, and asked for changes failing on fewer than one in 10^5 structured inputs or only on an unusual configuration / entry point / build mode' if '/mut5-' in d else ('; round 6: the agent was given the text of all twenty properties, a theme (build-mode differences, narrowed intermediates, fast paths, sign handling, feature-gated code, text conversion, conversions, free choice), and a description of the operand families and configurations a harness covers (including every digit count up to 32)' if '/mut6-' in d else ('; round 7: as round 6, but aimed at one property for which round 6 had produced no change, with the remark that all earlier attempts on it had been detected; the agent was asked to stress-test its own change against a reference before settling on it' if '/mut7-' in d else '')))))),
         'confirmed_by_me': {'how': 'tools/eval_mutant.py in a fresh scratch worktree of /repo HEAD: git apply patch.diff; cargo nextest run --workspace --offline (pinned suite); '
                                    'cargo build --features numtraits,rand; demo with and without the patch; then ./check <id> quick with VERIF_REPO=<worktree>',
                             'patch_applies': e.get('patch_applies'), 'suite_passes_with_patch': e.get('suite_passes_with_patch'), 'suite_summary': e.get('suite'),
